@@ -294,6 +294,11 @@ type SliceV struct {
 	N    int
 	T    Term // opaque id
 	Typ  types.Type
+	// Elems: the elements, when the slice was built from nil by append of literal element lists in this
+	// activation (variadic option lists); nil otherwise. Known marks an empty but known list.
+	Elems  []Val
+	Guards []Term // parallel to Elems: the condition under which the element is part of the list
+	Known  bool
 }
 
 func valTerm(v Val) (Term, bool) {
